@@ -27,6 +27,7 @@ Theorems (all for EVERY tree shape, every query, every number of calls):
 -/
 import SharkVerif.Lemmas.NNRun
 import SharkVerif.Lemmas.KD
+import SharkVerif.Lemmas.NNK1
 namespace SharkVerif.NN
 
 /-- **radius_is_lower_bound.** In every state reachable from the constructor by
@@ -125,6 +126,29 @@ theorem k1Tree_hypotheses : Fresh k1Tree ∧ LbAdm k1Dist k1Tree ∧ LeavesNonem
   · simp [k1Tree, LbAdm, TTree.pts, k1Dist]; decide +kernel
   · simp [k1Tree, LeavesNonempty]
 
+/-- **k1_exact_for_leaf_distance.**  What the search computes on a tree WITHOUT `LeafUniform`
+(finding K1), for every tree shape, query and `k ≤ n`: an exact nearest-neighbour search for the
+*leaf distance* of every point (`leafDist t i` = the distance stored at the leaf that holds `i`;
+the real code stores the distance of the leaf's first point, `LeafAnchored`).  Every point is
+reported once, with its leaf distance, in non-decreasing order of leaf distance, each minimal
+among the points not yet returned.  The harness' K1 classification re-runs its brute-force
+oracle with exactly these pseudo distances: a result that is not explained this way is NOT the
+listed finding. -/
+theorem k1_exact_for_leaf_distance (dist : Nat → Rat) (t : TTree) (hf : Fresh t) (ha : LbAdm dist t)
+    (hc : LeafAnchored dist t) (hnd : t.pts.Nodup) (k : Nat) (hk : k ≤ t.pts.length) :
+    ∃ (is : List Nat) (s' : QState),
+      treeKnn t k = is.map (fun i => some (leafDist t i, i)) ∧ is.length = k ∧
+      (is ++ remaining s').Perm t.pts ∧
+      (∀ x ∈ is, ∀ y ∈ remaining s', leafDist t x ≤ leafDist t y) ∧
+      is.Pairwise (fun a b => leafDist t a ≤ leafDist t b) :=
+  next_returns_min (leafDist t) t hf (lbAdm_leafDist dist _ t hnd ha hc (fun _ _ => rfl))
+    (leafUniform_leafDist _ t hnd (fun _ _ => rfl)) (anchored_nonempty dist t hc) k hk
+
+/-- non-vacuity: the K1 witness satisfies the hypotheses; point 3 (true distance 9) has leaf distance 4 -/
+example : LeafAnchored k1Dist k1Tree ∧ k1Tree.pts.Nodup ∧ leafDist k1Tree 3 = 4 ∧ leafDist k1Tree 1 = 144 := by
+  refine ⟨?_, by decide, by decide +kernel, by decide +kernel⟩
+  simp [k1Tree, LeafAnchored, k1Dist]
+
 /-! ### kd-tree construction -/
 
 /-- **indexList_perm.** The index list of `KDTree(dataset, TreeConstruction(maxDepth, maxBucket))`
@@ -138,6 +162,58 @@ theorem indexList_perm (P : Nat → Point) (dim n maxDepth maxBucket : Nat) :
 theorem split_partitions (val : Nat → Rat) (idx : List Nat) (s : Split)
     (h : splitList val idx = some s) : (s.left ++ s.right).Perm idx :=
   splitList_perm h
+
+/-- **calcCutDim_dim_uniform.** `KDTree::calculateCuttingDimension` answers "unsplittable" (`dim`)
+only for a cell whose points agree in EVERY coordinate (all `dim` extents are inspected before the
+zero-extent test) - so a kd-tree built with bucket size 1 gets a multi-point leaf only for copies of
+one point, the precondition `LeafUniform` of `next_returns_min`.  (That a cell with positive extent
+is always split further is not proved; the harness checks on every real tree built with bucket size 1
+that no leaf holds two distinct points.) -/
+theorem calcCutDim_dim_uniform (P : Nat → Point) (dim : Nat) (idx : List Nat) (hdim : 0 < dim)
+    (h : calcCutDim P dim idx = dim) :
+    ∀ i ∈ idx, ∀ j ∈ idx, ∀ d, d < dim → coord (P i) d = coord (P j) d := by
+  intro i hi j hj d hd
+  have spec := cutFold_spec (fun d => maxOver (fun i => coord (P i) d) idx - minOver (fun i => coord (P i) d) idx)
+    (List.range dim) (0, maxOver (fun i => coord (P i) 0) idx - minOver (fun i => coord (P i) 0) idx)
+  simp only at spec
+  obtain ⟨_, h2, h3⟩ := spec
+  unfold calcCutDim at h
+  simp only at h
+  split at h
+  · rename_i hz
+    have hd' := h2 d (List.mem_range.mpr hd)
+    rw [hz] at hd'
+    have a1 := le_maxOver (fun i => coord (P i) d) idx i hi
+    have a2 := minOver_le (fun i => coord (P i) d) idx i hi
+    have b1 := le_maxOver (fun i => coord (P i) d) idx j hj
+    have b2 := minOver_le (fun i => coord (P i) d) idx j hj
+    grind
+  · rcases h3 with h3 | h3
+    · rw [h3] at h; omega
+    · have := List.mem_range.mp h3; rw [h] at this; omega
+example : calcCutDim (fun i => [[1, 5], [1, 7]].getD i []) 2 [0, 1] = 1 ∧
+    calcCutDim (fun i => [[1, 5], [1, 5]].getD i []) 2 [0, 1] = 2 := by decide +kernel
+
+/-! ### Kernel-induced metrics -/
+
+/-- **featureDist2_linear.**  The feature distance `k(x,x) - 2k(x,y) + k(y,y)` of the linear kernel
+is the squared Euclidean distance: a `KHCTree` over `LinearKernel` searches the same metric as
+kd- and LC-trees (the correspondence additionally runs `KHCTree` over the kernel `(<x,y>+1)^2`,
+tree kind `khcp`, whose feature distance `featureDist2 (polyKernel 2 1)` is a different metric). -/
+theorem featureDist2_linear : ∀ (x y : Point), x.length = y.length → featureDist2 dot x y = dist2 x y
+  | [], [], _ => by simp [featureDist2, dot, dist2]; grind
+  | [], _ :: _, h => by simp at h
+  | _ :: _, [], h => by simp at h
+  | a :: as, b :: bs, h => by
+    have ih := featureDist2_linear as bs (by simpa using h)
+    simp only [featureDist2, dot, dist2] at ih ⊢
+    rw [← ih]
+    grind
+
+/-- the two metrics differ: points `-3` and `2`, query `-1` (corpus `kh1_khctree_kernel_metric.txt`):
+Euclidean 4 < 9, feature distance of `(xy+1)^2`: 72 > 27 -/
+example : dist2 [-3] [-1] < dist2 [2] [-1] ∧
+    featureDist2 (polyKernel 2 1) [2] [-1] < featureDist2 (polyKernel 2 1) [-3] [-1] := by decide +kernel
 
 /-! ### `NearestNeighborModel` -/
 
